@@ -85,7 +85,10 @@ def make_region(spec):
     if shape == 'rectangle':
         return K('Rectangle')(c, q(1.5 * s), q(s), angle=ang, **kw)
     if shape == 'polygon':
-        return K('Polygon')(verts([(0, 0), (1, 0.125), (0.75, 1), (-0.25, 0.5)]), **kw)
+        pts = [(0, 0), (1, 0.125), (0.75, 1), (-0.25, 0.5)]
+        if spec.get('closed'):
+            pts = pts + [pts[0]]        # a closed ring: the last vertex repeats the first
+        return K('Polygon')(verts(pts), **kw)
     if shape == 'line':
         return K('Line')(c, mk(1.0, 0.5), **kw)
     if shape == 'text':
@@ -287,6 +290,8 @@ METAS = [
     ({}, {'linewidth': 0}),
     ({}, {'symsize': 0, 'symthick': 0}),
     ({'label': 'l0'}, {'usetex': False, 'fontsize': 0}),
+    # a backslash (a TeX label) and a no-break space are characters like any other
+    ({'label': '$\\alpha$ Cen\u00a0A'}, {'usetex': True}),
 ]
 
 
@@ -337,6 +342,10 @@ def single_cases(tier):
                                         for ru in rus:
                                             if feasible(spec, fmt, ru):
                                                 out.append([spec, coordsys, fmt, ru])
+    # closed polygon rings (the last vertex repeats the first): every vertex is written and read back
+    for frame in ('image', 'fk5', 'galactic'):
+        spec = {'shape': 'polygon', 'frame': frame, 'pos': 0, 'size': 0, 'include': 'absent', 'type': None, 'closed': True}
+        out.append([spec, 'image' if frame == 'image' else frame, '.6f', None if frame == 'image' else 'arcsec'])
     # metadata
     for shape in SHAPES:
         for frame in ('image', 'fk5', 'galactic'):
